@@ -179,7 +179,17 @@ def verus_counterexample(unit_res, failure, evdir, pid):
     return path, found
 
 
+_ORACLE_CACHE = {}
+
+
 def run_oracle(oracle, function):
+    key = (oracle['file'], oracle['test'])
+    if key not in _ORACLE_CACHE:
+        _ORACLE_CACHE[key] = _run_oracle(oracle, function)
+    return _ORACLE_CACHE[key]
+
+
+def _run_oracle(oracle, function):
     """oracle = {'inject': 'src/x.rs', 'file': '<name in /verif/replay>', 'test': 'mod::path'}:
     an executable form of the contracts as a #[cfg(test)] module, run on the real crate in a scratch copy."""
     root = os.path.join(kunit.scratch_root(), 'oracle')
